@@ -1,4 +1,5 @@
 import TinsModel.Tcp.LemmasModel
+import TinsModel.Tcp.Spec
 /-
   `total_buffered_bytes_` bookkeeping: in every state reachable through `process_payload` /
   `advance_sequence` (any arguments whatsoever) the counter equals the bytes actually held, modulo 2^32
@@ -156,5 +157,58 @@ theorem advanceSequence_TotInv {t : Tracker} (h : TotInv t) (seq : Nat) : TotInv
       show List.foldl _ t.total (t.buf.filter _) = wrap32 (sumSizes (t.buf.filter _))
       rw [filter_sumSizes_foldl t.buf _ t.total (sumSizes t.buf) ht (by omega)]
       congr 1; omega
+
+theorem applyOp_TotInv {t : Tracker} (h : TotInv t) (op : Op) : TotInv (applyOp t op) := by
+  cases op with
+  | seg q p => exact processPayload_TotInv h q p
+  | adv q => exact advanceSequence_TotInv h q
+
+theorem foldl_applyOp_TotInv (ops : List Op) {t : Tracker} (h : TotInv t) : TotInv (ops.foldl applyOp t) := by
+  induction ops generalizing t with
+  | nil => exact h
+  | cons op r ih => exact ih (applyOp_TotInv h op)
+
+/-! ### delivery is append-only (for any arguments whatsoever) -/
+
+theorem drain_payload_append (fuel : Nat) (t : Tracker) (iter : Option Nat) (added : Bool) :
+    ∃ d, (drain fuel t iter added).1.payload = t.payload ++ d := by
+  induction fuel generalizing t iter added with
+  | zero => exact ⟨[], by simp [drain_zero]⟩
+  | succ fuel ih =>
+    cases iter with
+    | none => exact ⟨[], by simp [drain_none]⟩
+    | some key =>
+      rw [drain_succ]
+      split
+      · exact ⟨[], by simp⟩
+      · next chunk hl =>
+        split
+        · split
+          · split
+            · obtain ⟨d, hd⟩ := ih (sliceState t key chunk) (cyclicSucc (sliceState t key chunk).buf key) added
+              refine ⟨d, ?_⟩
+              rw [hd]
+              show (storePayload _ _ _).payload ++ d = _
+              rw [storePayload_payload]
+            · exact ih (discardState t key chunk) _ added
+          · obtain ⟨d, hd⟩ := ih (deliverState t key chunk) (cyclicSucc (deliverState t key chunk).buf key) true
+            refine ⟨chunk ++ d, ?_⟩
+            rw [hd]
+            show (t.payload ++ chunk) ++ d = _
+            rw [List.append_assoc]
+        · exact ⟨[], by simp⟩
+
+theorem processPayload_payload_append (t : Tracker) (seq : Nat) (p : Bytes) :
+    ∃ d, (processPayload t seq p).1.payload = t.payload ++ d := by
+  rw [processPayload_eq]
+  split
+  · exact ⟨[], by simp⟩
+  · obtain ⟨d, hd⟩ := drain_payload_append (2 * (storedState t seq p).buf.length + 2) (storedState t seq p)
+      (if (lookup (storedState t seq p).buf (storedState t seq p).seq).isSome then some (storedState t seq p).seq else none)
+      false
+    refine ⟨d, ?_⟩
+    rw [hd]
+    unfold storedState
+    rw [storePayload_payload]
 
 end Tins.DT
